@@ -174,32 +174,32 @@ def _run_shard(binary, lines, timeout):
     return out, None
 
 
-def run_binary(binary, lines, timeout=600, shards=None):
-    """run `binary` over all case lines, sharded over the cores. A shard that crashes or hangs is
-    bisected down to the single offending case, which gets the result 'ABORT <reason>'."""
+def run_binary(binary, lines, timeout=900, shards=None):
+    """run `binary` over all case lines, sharded over the cores (round-robin, so that a family of
+    expensive cases is spread over all shards). A shard that crashes or hangs is bisected down to
+    the single offending case, which gets the result 'ABORT <reason>'."""
     n = len(lines)
     if n == 0:
         return []
     shards = shards or min(NPROC, max(1, n // 50))
-    size = (n + shards - 1) // shards
-    chunks = [(i, lines[i:i + size]) for i in range(0, n, size)]
+    chunks = [list(range(k, n, shards)) for k in range(shards)]
     results = [None] * n
 
-    def work(start, chunk):
-        out, err = _run_shard(binary, chunk, timeout)
+    def work(idx):
+        out, err = _run_shard(binary, [lines[i] for i in idx], timeout)
         if err is None:
-            for k, o in enumerate(out):
-                results[start + k] = o
+            for i, o in zip(idx, out):
+                results[i] = o
             return
-        if len(chunk) == 1:
-            results[start] = "ABORT " + err
+        if len(idx) == 1:
+            results[idx[0]] = "ABORT " + err
             return
-        mid = len(chunk) // 2
-        work(start, chunk[:mid])
-        work(start + mid, chunk[mid:])
+        mid = len(idx) // 2
+        work(idx[:mid])
+        work(idx[mid:])
 
     with ThreadPoolExecutor(max_workers=shards) as ex:
-        list(ex.map(lambda c: work(*c), chunks))
+        list(ex.map(work, [c for c in chunks if c]))
     return results
 
 
